@@ -22,6 +22,13 @@ from common import Check, Driver, rs
 PROP = "C16"
 
 
+def safe_float(x):
+    try:
+        return float(x)
+    except OverflowError:
+        return float("inf")
+
+
 def enc(s: str) -> str:
     return "s" + ".".join(str(ord(c)) for c in s)
 
@@ -212,7 +219,7 @@ def format_runs(chk: Check, n):
         bound = F(1, 2) * F(10) ** (1 - sig) * abs(target) * (1 + F(1, 2**40))
         if err > bound or (pv < 0) != (target < 0):
             chk.fail("the rendered text is not the number rounded to `sig` significant digits",
-                     dict(input=inp, got=text, parsed=str(pv), target=float(target), rel_error=float(err / abs(target)),
+                     dict(input=inp, got=text, parsed=str(pv)[:80], target=str(target)[:80], rel_error=safe_float(err / abs(target)),
                           bound=float(F(1, 2) * F(10) ** (1 - sig))))
         if toks[2] != "-" and F(toks[2]) != pv and mtext == text:
             chk.disagree("model's denoted value differs from what its own text parses to",
